@@ -70,7 +70,9 @@ pub fn format_dividend(
 
 /// Format a comment line
 pub fn format_comment(text: &str) -> String {
-    format!("# {}", text)
+    // A comment must stay on one line: a line break inside free text (e.g. a Schwab
+    // description) would otherwise start a new DSL line.
+    format!("# {}", text.replace(['\r', '\n'], " "))
 }
 
 /// Generate header comments for a converted file
